@@ -15,6 +15,7 @@ def setup() -> int:
     d = tlc.scratch("setup")
     import shutil
     n = 0
+    bad = []
     for f in sorted(tlc.SPEC.glob("*.tla")):
         shutil.copy(f, d / f.name)
     for f in sorted(d.glob("*.tla")):
@@ -27,9 +28,9 @@ def setup() -> int:
             txt = str(e)
             if "Cannot find source file for module" in txt:
                 continue  # depends on a module generated at check time
-            print(txt)
-            return 2
-    print(f"setup: {n} specification modules parsed by SANY")
+            bad.append(f.name)
+            print(f"setup: WARNING SANY rejects {f.name} (reported again by the check that uses it):\n{txt[-600:]}")
+    print(f"setup: {n} specification modules parsed by SANY, {len(bad)} rejected {bad}")
     return 0
 
 
